@@ -42,6 +42,7 @@ RadixArgs == {Undef, Null, BoolV(TRUE), StrV(<<49, 54>>), StrV(<<48, 120, 49, 48
              \cup {IntV(r) : r \in 0..37}
 XOps == {[op |-> "Number", a |-> Undef], [op |-> "plus", a |-> Undef], [op |-> "parseFloat", a |-> Undef]}
         \cup {[op |-> "parseInt", a |-> r] : r \in RadixArgs}
+        \cup {[op |-> "pistr", a |-> r] : r \in {Undef, IntV(2), IntV(8), IntV(10), IntV(16), IntV(36)}}
 
 RECURSIVE FlatT(_, _)
 FlatT(f, i) == IF i > Len(f) THEN <<>> ELSE TA[f[i]] \o FlatT(f, i + 1)
@@ -62,23 +63,27 @@ Js(c) ==
       [] c.op = "parseFloat"    -> <<"parseFloat(", Lit(StrV(c.s)), ")">>
       [] c.op = "parseInt"      -> <<"parseInt(", Lit(StrV(c.s)), ", ", Lit(c.a), ")">>
       [] c.op = "lit"           -> <<[units |-> c.s]>>
+      [] c.op = "litstr"        -> <<"String(", [units |-> c.s], ")">>
+      [] c.op = "pistr"         -> <<"String(parseInt(", Lit(StrV(c.s)), ", ", Lit(c.a), "))">>
 
-Expect(Str(_), RT(_), Rad(_, _), Fix(_, _), Ex(_, _), Pr(_, _), TN(_), PF(_), PI(_, _), LE(_), c) ==
-    CASE c.op \in {"String", "concat"} -> Str(c.x)
-      [] c.op = "rt"            -> RT(c.x)
-      [] c.op = "toString"      -> Rad(c.x, c.a)
-      [] c.op = "toFixed"       -> Fix(c.x, c.a)
-      [] c.op = "toExponential" -> Ex(c.x, c.a)
-      [] c.op = "toPrecision"   -> Pr(c.x, c.a)
+Expect(Str(_, _), RT(_, _), Rad(_, _, _), Fix(_, _, _, _), Ex(_, _, _, _), Pr(_, _, _, _), TN(_), PF(_), PI(_, _), LE(_), LS(_), PS(_, _), c, sd, rp) ==
+    CASE c.op \in {"String", "concat"} -> Str(c.x, sd)
+      [] c.op = "rt"            -> RT(c.x, sd)
+      [] c.op = "toString"      -> Rad(c.x, c.a, sd)
+      [] c.op = "toFixed"       -> Fix(c.x, c.a, sd, rp)
+      [] c.op = "toExponential" -> Ex(c.x, c.a, sd, rp)
+      [] c.op = "toPrecision"   -> Pr(c.x, c.a, sd, rp)
       [] c.op \in {"Number", "plus"} -> TN(c.s)
       [] c.op = "parseFloat"    -> PF(c.s)
       [] c.op = "parseInt"      -> PI(c.s, c.a)
       [] c.op = "lit"           -> LE(c.s)
+      [] c.op = "litstr"        -> LS(c.s)
+      [] c.op = "pistr"         -> PS(c.s, c.a)
 
 (* cases whose result ES5 leaves to the implementation are not generated *)
 Open(c) ==
-    CASE c.op \in {"Number", "plus", "parseFloat", "lit"} -> S!DecimalOpen(c.s)
-      [] c.op = "parseInt" -> S!ParseIntOpen(c.s, c.a)
+    CASE c.op \in {"Number", "plus", "parseFloat", "lit", "litstr"} -> S!DecimalOpen(c.s)
+      [] c.op \in {"parseInt", "pistr"} -> S!ParseIntOpen(c.s, c.a)
       [] OTHER -> FALSE
 
 None == [op |-> "none"]
@@ -106,18 +111,22 @@ Next ==
          [] blk[1] = "l" /\ blk[2] > 0 ->
                \E t \in Tails(LitLen - 2, NLA) : cs' = [op |-> "lit", s |-> <<LA[blk[2]], LA[blk[3]]>> \o LitOf(t), a |-> Undef]
          [] blk[1] = "x" -> \E o \in XOps : cs' = T2N(o, XText[blk[2]])
-         [] blk[1] = "y" -> \E k \in {i \in 1..Len(XLit) : i % 16 = blk[2] - 1} : cs' = [op |-> "lit", s |-> XLit[k], a |-> Undef]
+         [] blk[1] = "y" -> \E k \in {i \in 1..Len(XLit) : i % 16 = blk[2] - 1}, o \in {"lit", "litstr"} : cs' = [op |-> o, s |-> XLit[k], a |-> Undef]
 
 Emit ==
     cs = None \/ Open(cs) \/
-    LET es == Expect(S!ToStr, S!RoundTrip, S!ToStringRadix, S!ToFixed, S!ToExponential, S!ToPrecision,
-                     S!ToNum, S!ParseFloat, S!ParseInt, S!LitEval, cs)
-        ed == Expect(L!ToStr, L!RoundTrip, L!ToStringRadix, L!ToFixed, L!ToExponential, L!ToPrecision,
-                     L!ToNum, L!ParseFloat, L!ParseInt, L!LitEval, cs)
+    LET \* the exact arithmetic of the case, shared by both instances (evaluated on demand)
+        sd == S!PreShort(cs.x)
+        rp == S!PreRound(cs.op, cs.x, cs.a)
+        es == Expect(S!ToStrP, S!RoundTripP, S!ToStringRadixP, S!ToFixedP, S!ToExponentialP, S!ToPrecisionP,
+                     S!ToNum, S!ParseFloat, S!ParseInt, S!LitEval, S!LitStr, S!ParseIntStr, cs, sd, rp)
+        ed == Expect(L!ToStrP, L!RoundTripP, L!ToStringRadixP, L!ToFixedP, L!ToExponentialP, L!ToPrecisionP,
+                     L!ToNum, L!ParseFloat, L!ParseInt, L!LitEval, L!LitStr, L!ParseIntStr, cs, sd, rp)
     IN  \/ es.thr = "skip"
         \/ /\ \* self-checks of the specification: 9.8.1 followed by 9.3.1 is the identity, and the
               \* acceptor-based formulation of parseFloat agrees with the direct one
-              (cs.op = "rt" => Assert(es = S!RN(cs.x), <<"round trip is not the identity", cs>>))
+              (cs.op = "rt" => Assert(S!RoundTripHolds(cs.x, sd), <<"round trip is not the identity", cs>>))
            /\ (cs.op = "parseFloat" => Assert(S!ParseFloatGo(cs.s) = S!ParseFloatES(cs.s), <<"parseFloat formulations differ", cs>>))
+           /\ (cs.op = "Number" => Assert(S!StrToNumF(cs.s) = StrToNum(cs.s), <<"StrToNumF differs from Val!StrToNum", cs>>))
            /\ PrintT("VJSON " \o ToJson([c |-> cs, js |-> Js(cs), exp |-> es, dev |-> IF ed = es THEN <<>> ELSE <<ed>>]))
 =============================================================================
